@@ -76,7 +76,7 @@ class C08OpGen(OpGen):
         return [k for k in enabled if k != self.iou_key(tracks)]
 
 
-WEIGHTS = {"paint": 8, "update_attrs": 0.2, "swap": 0.5, "add_node": 4, "delete_node": 3,
+WEIGHTS = {"reload": 0.3, "paint": 8, "update_attrs": 0.2, "swap": 0.5, "add_node": 4, "delete_node": 3,
            "features": 1.2, "scenario": 0.8, "prim_seg": 0.6, "rescale": 0.4}
 
 
